@@ -217,7 +217,7 @@ func ParseLine(s string) *Line {
 func parseUserHost(uh string) (nick, ident, host string, ok bool) {
 	uh = strings.TrimSpace(uh)
 	nidx, uidx := strings.Index(uh, "!"), strings.Index(uh, "@")
-	if uidx == -1 || nidx == -1 {
+	if uidx == -1 || nidx == -1 || nidx > uidx {
 		return "", "", "", false
 	}
 	return uh[:nidx], uh[nidx+1 : uidx], uh[uidx+1:], true
